@@ -1581,3 +1581,151 @@ Proof.
   splits; [simpl; lia|repeat constructor| |vm_compute; reflexivity|reflexivity].
   intros i Hi. destruct i as [|[|[|i]]]; vm_compute; lia.
 Qed.
+
+(* ------------------------------------------------------------------ *)
+(* Data.equals on compressed data                                       *)
+(* ------------------------------------------------------------------ *)
+Section EqualsLemmas.
+Context {C U T K : Type}.
+Context (decode : C -> U) (ctype : C -> T) (carr : C -> K).
+Context (u_eqb : U -> U -> bool) (t_eqb : T -> T -> bool) (k_eqb : K -> K -> bool).
+Hypothesis u_eqb_spec : forall x y, u_eqb x y = true <-> x = y.
+
+(* with ignore_compression (the default) equality of data is equality of the
+   uncompressed arrays, whatever the two sources are: compressed the same way,
+   differently, or not at all *)
+Lemma equals_is_view_equality : forall s t,
+  data_equals decode ctype carr u_eqb t_eqb k_eqb true s t = true <->
+  view decode s = view decode t.
+Proof. intros s t. unfold data_equals. simpl. apply u_eqb_spec. Qed.
+
+(* without it the compression type and the compressed arrays must be equal
+   AS WELL AS the uncompressed arrays *)
+Lemma equals_strict : forall s t,
+  data_equals decode ctype carr u_eqb t_eqb k_eqb false s t = true <->
+  same_compression ctype carr t_eqb k_eqb s t = true /\ view decode s = view decode t.
+Proof.
+  intros s t. unfold data_equals. rewrite andb_true_iff, u_eqb_spec. reflexivity.
+Qed.
+
+Lemma equals_strict_implies_default : forall s t,
+  data_equals decode ctype carr u_eqb t_eqb k_eqb false s t = true ->
+  data_equals decode ctype carr u_eqb t_eqb k_eqb true s t = true.
+Proof.
+  intros s t H. apply equals_strict in H as [_ H]. apply equals_is_view_equality. exact H.
+Qed.
+
+End EqualsLemmas.
+
+(* ------------------------------------------------------------------ *)
+(* the integer type of the count variable                               *)
+(* ------------------------------------------------------------------ *)
+Open Scope Z_scope.
+
+Lemma ity_signed_facts : forall t, ity_signed t = true ->
+  ity_min t = - ity_max t - 1 /\ 2 ^ ity_bits t = 2 * ity_max t + 2 /\ 0 <= ity_max t.
+Proof. intros t H. destruct t; try discriminate H; vm_compute; repeat split; discriminate. Qed.
+
+Lemma ity_unsigned_facts : forall t, ity_signed t = false ->
+  ity_min t = 0 /\ 2 ^ ity_bits t = ity_max t + 1 /\ 0 <= ity_max t.
+Proof. intros t H. destruct t; try discriminate H; vm_compute; repeat split; discriminate. Qed.
+
+Lemma wrap_in_range : forall t v, in_ity t v = true -> wrap t v = v.
+Proof.
+  intros t v H. unfold in_ity in H. apply andb_true_iff in H as [H1 H2].
+  apply Z.leb_le in H1. apply Z.leb_le in H2.
+  unfold wrap. set (m := 2 ^ ity_bits t). set (M := ity_max t) in *.
+  destruct (ity_signed t) eqn:Hs.
+  - destruct (ity_signed_facts t Hs) as [Emin [Em HM]]. fold m in Em. fold M in Emin, Em, HM.
+    rewrite Emin in H1. simpl andb.
+    destruct (Z.lt_ge_cases v 0) as [Hn|Hp].
+    + assert (E : v mod m = v + m).
+      { rewrite <- (Z_mod_plus_full v 1 m). rewrite Z.mul_1_l. apply Z.mod_small. lia. }
+      rewrite E. destruct (Z.ltb_spec M (v + m)); lia.
+    + rewrite Z.mod_small by lia. destruct (Z.ltb_spec M v); lia.
+  - destruct (ity_unsigned_facts t Hs) as [Emin [Em HM]]. fold m in Em. fold M in Em, HM.
+    rewrite Emin in H1. simpl andb. apply Z.mod_small. lia.
+Qed.
+
+Definition sumZ (l : list Z) : Z := fold_right Z.add 0 l.
+
+Lemma ity_min_le_0 : forall t, ity_min t <= 0.
+Proof. destruct t; vm_compute; discriminate. Qed.
+
+Close Scope Z_scope.
+
+Section TypedLemmas.
+Context {A : Type}.
+Context (miss : A).
+
+Definition stored_ok (t : ity) (stored : list Z) : Prop :=
+  Forall (fun v => (0 <= v)%Z /\ in_ity t v = true) stored.
+
+Lemma count_tolist_in_range : forall t stored, stored_ok t stored ->
+  count_tolist t stored = map Z.to_nat stored.
+Proof.
+  intros t stored H. unfold count_tolist, stored_ok in *. apply map_ext_in. intros v Hv.
+  rewrite Forall_forall in H. rewrite wrap_in_range by (apply H, Hv). reflexivity.
+Qed.
+
+(* The presented array does not depend on the integer type of the count
+   variable: any two types that can hold the counts give the same array ... *)
+Lemma count_type_irrelevant : forall t t' nrows w stored (data : list A),
+  stored_ok t stored -> stored_ok t' stored ->
+  contiguous_decode_ty miss t nrows w stored data = contiguous_decode_ty miss t' nrows w stored data.
+Proof.
+  intros. unfold contiguous_decode_ty. rewrite !count_tolist_in_range by assumption. reflexivity.
+Qed.
+
+(* ... namely the array CF 9.3.3 defines, also when the SUM of the counts is
+   beyond the range of the type *)
+Lemma contiguous_decode_ty_spec : forall t nrows w stored (data : list A),
+  stored_ok t stored -> Forall (fun v => (v <= Z.of_nat w)%Z) stored ->
+  exists u, contiguous_decode_ty miss t nrows w stored data = Ok u /\
+            length u = nrows /\ Forall (fun r => length r = w) u /\
+            forall i j, (i < nrows)%nat ->
+              nth j (nth i u []) miss = contig_spec miss (map Z.to_nat stored) data i j.
+Proof.
+  intros t nrows w stored data Hs Hw. unfold contiguous_decode_ty.
+  rewrite count_tolist_in_range by exact Hs.
+  apply contiguous_decode_spec. apply Forall_forall. intros c Hc.
+  apply in_map_iff in Hc as [v [Ev Hv]]. subst c. rewrite Forall_forall in Hw. specialize (Hw v Hv). lia.
+Qed.
+
+(* Accumulating the partial sums in the variable's own type gives the same
+   array exactly when the sums fit: guard for the witness in Refuted.v *)
+Lemma wrapped_selectors : forall t n counts acc,
+  (0 <= acc)%Z -> stored_ok t counts ->
+  (acc + sumZ counts <= ity_max t)%Z -> (acc + sumZ counts <= n)%Z ->
+  slices_between n acc (cumsum_wrap t acc (map (wrap t) counts))
+  = contig_selectors (Z.to_nat acc) (count_tolist t counts).
+Proof.
+  intros t n counts. unfold stored_ok. induction counts as [|x r IH]; intros acc Ha Hs Hm Hn; [reflexivity|].
+  inversion Hs as [|? ? [Hx0 Hxr] Hs']; subst. unfold sumZ in Hm, Hn. simpl in Hm, Hn. fold (sumZ r) in Hm, Hn.
+  assert (Hr0 : (0 <= sumZ r)%Z).
+  { clear -Hs'. induction Hs' as [|y l [Hy _] _ IHl]; unfold sumZ; simpl; [lia|]. fold (sumZ l). lia. }
+  cbn [map cumsum_wrap slices_between count_tolist contig_selectors].
+  rewrite (wrap_in_range t x Hxr).
+  assert (Hacc : wrap t (acc + x) = (acc + x)%Z).
+  { apply wrap_in_range. unfold in_ity. apply andb_true_iff. split; apply Z.leb_le;
+      [pose proof (ity_min_le_0 t); lia|lia]. }
+  rewrite Hacc. f_equal.
+  - unfold norm_bound.
+    destruct (Z.ltb_spec acc 0); [lia|]. destruct (Z.ltb_spec (acc + x) 0); [lia|].
+    rewrite !Z.min_l by lia. rewrite Z2Nat.inj_add by lia. reflexivity.
+  - rewrite IH by (auto; lia). rewrite Z2Nat.inj_add by lia. reflexivity.
+Qed.
+
+Lemma wrapped_agrees_when_sums_fit : forall t nrows w stored (data : list A),
+  stored_ok t stored -> (sumZ stored <= ity_max t)%Z -> (sumZ stored <= Z.of_nat (length data))%Z ->
+  contiguous_decode_wrapped miss t nrows w stored data = contiguous_decode_ty miss t nrows w stored data.
+Proof.
+  intros t nrows w stored data Hs Hm Hn. unfold contiguous_decode_wrapped, contiguous_decode_ty, contiguous_decode.
+  rewrite (wrapped_selectors t (Z.of_nat (length data)) stored 0%Z) by (auto; lia). reflexivity.
+Qed.
+
+End TypedLemmas.
+
+Lemma count_type_example :
+  stored_ok I8 [60; 50; 0; 40]%Z /\ (ity_max I8 < sumZ [60; 50; 0; 40])%Z.
+Proof. split; [repeat constructor; vm_compute; discriminate|vm_compute; reflexivity]. Qed.
